@@ -26,7 +26,7 @@ let eval case0 impl =
   (* optional prefixes T<n>! (thread count) and N<n>! (head limit) *)
   let max_head = ref 4096 in
   let rec strip c =
-    if String.length c > 2 && (c.[0] = 'T' || c.[0] = 'N') && c.[1] >= '0' && c.[1] <= '9' then
+    if String.length c > 2 && (c.[0] = 'T' || c.[0] = 'N' || c.[0] = 'L') && c.[1] >= '0' && c.[1] <= '9' then
       (match String.index_opt c '!' with
        | Some i ->
          (match int_of_string_opt (String.sub c 1 (i - 1)) with
